@@ -15,6 +15,7 @@ spec/ClientStore.tla is the oracle (operators store -> store, intended design; d
 import hashlib
 import json
 import os
+import random
 import subprocess
 import time
 
@@ -366,6 +367,19 @@ def sample_behaviour(graph, n=6):
 def replay(path):
     """Re-executes the operation sequence of a recorded violation on the current tree."""
     rp = json.load(open(path))["replay"]
+    if "steps" in rp.get("scenario", {}):
+        # a script for the plugin binary (binary_tier)
+        import clientlib as L
+        wd = workdir(PID)
+        client, _ = L.build_all()
+        verdict = Verdict(PID)
+        res, sdir = L.run_scenarios([rp["scenario"]], wd, client)
+        tags_of, _ = L.validate_many([rp["scenario"]["name"]], sdir, wd)
+        for (ln, prop, what, n) in tags_of[rp["scenario"]["name"]]:
+            if prop == PID:
+                verdict.disagree(what, "watchtower-client binary", (rp["scenario"].get("covers") or ["-"])[0],
+                                 "C18: %s in scenario %s line %d" % (what, n, ln), {"scenario": rp["scenario"], "tag": what})
+        return 1 if verdict.finish() else 0
     if "shape" in rp:
         # a random trace: same shape and seed again
         sh = rp["shape"]
@@ -391,6 +405,39 @@ def replay(path):
     classify(res, cfg, "replay", verdict)
     log("replayed %d operations: %d mismatches, deviations %s" % (res["steps"], res["mismatches"], res["dev_hits"]))
     return 1 if verdict.finish() else 0
+
+
+def binary_tier(wd, tier, verdict, stats):
+    """C18 in the flows only the plugin binary has (duplicate notifications, re-delivery, answers that arrive after a
+    tower was flagged): the real watchtower-client is driven by harness/client_rig against scripted towers and
+    Trace_Client.tla (see lib/clientlib.py) compares what listtowers reports with what is stored after every step; the
+    disagreements it attributes to C18 (slot counts, misbehaving <=> proof stored) are judged here."""
+    import clientlib as L
+    client, _ = L.build_all()
+    scens = L.fam_duplicates("c18") + L.fam_misbehaving_late("c18") + L.fam_abandon("c18") + \
+        [s for s in L.regression_scripts() if any(k in s["name"] for k in ("S15", "S18", "S21", "S22"))]
+    if tier != "quick":
+        rng = random.Random(seed() * 31 + 18)
+        scens += L.fam_random("c18", rng, 60) + L.fam_kill("c18", rng, 20)
+    bdir = os.path.join(wd, "binary")
+    os.makedirs(bdir, exist_ok=True)
+    res, sdir = L.run_scenarios(scens, bdir, client)
+    names = [s["name"] for s in scens]
+    tags_of, lines = L.validate_many(names, sdir, bdir)
+    by_name = {s["name"]: s for s in scens}
+    hits = 0
+    for n in names:
+        if res[n]["inconclusive"]:
+            continue
+        for (ln, prop, what, _n) in tags_of[n]:
+            if prop != PID:
+                continue
+            hits += 1
+            verdict.disagree(what, "watchtower-client binary", (by_name[n].get("covers") or ["-"])[0],
+                             "C18: %s in scenario %s (trace %s line %d): what the client reports is not what it has stored"
+                             % (what, n, os.path.join(sdir, n + ".ndjson"), ln),
+                             {"scenario": by_name[n], "tag": what, "line": ln})
+    stats["binary"] = {"scenarios": len(names), "trace_lines_validated": lines, "c18_tags": hits}
 
 
 def main(tier, replay_path=None):
@@ -435,6 +482,7 @@ def main(tier, replay_path=None):
             finish_spec_to_impl(job, verdict, stats)
         for judge in stats["deferred"]:
             judge()
+        binary_tier(wd, tier, verdict, stats)
     finally:
         for job in jobs:
             for k in ("walk", "seqs"):
@@ -468,6 +516,7 @@ def main(tier, replay_path=None):
         "impl_operations_executed": stats["steps"],
         "impl_comparisons": stats["comparisons"],
         "impl_operations_by_kind": stats["op_kinds"],
+        "plugin_binary_tier": stats.get("binary", {}),
         "known_findings_hit": verdict.known_hits,
         "samples": stats["samples"][:4],
     }, [
